@@ -478,8 +478,8 @@ def _jobs_for(prop, tier):
     if prop == 'C07':
         return [j for j in jobs_option_below(tier) if j[1][3] == 'combinations'] + jobs_combinations(tier) + jobs_axis0(tier, 'combinations')
     if prop == 'C03':
-        return jobs_c03(tier) + jobs_option_reduce(tier) + jobs_axis(tier, ('reduce',)) + jobs_reduce_nonlocal(tier)
-    return {'C02': (lambda t: jobs_c02(t) + jobs_numpy_toregular(t)), 'C03': jobs_c03, 'C04': (lambda t: jobs_c04(t) + jobs_numpy_toregular(t)), 'C06': (lambda t: jobs_c06(t) + jobs_axis(t, ('sort', 'argsort')) + jobs_numpy_sort(t) + jobs_sort_nonlocal(t) + jobs_option_sort(t) + jobs_option_sort_above(t) + jobs_option_argsort(t) + jobs_string_argsort(t)), 'C08': (lambda t: jobs_c08(t) + jobs_numpy(t) + jobs_numpy_types(t) + jobs_union(t) + jobs_reverse_merge(t) + jobs_record_merge(t) + jobs_list_merge(t) + [j for j in jobs_record_named(t) if j[0] is h_record_mergemany_named] + jobs_merge_union(t) + jobs_union_ops(t)), 'C17': (lambda t: jobs_c17(t) + jobs_record_keys(t)), 'C12': (lambda t: jobs_numpy(t) + jobs_numpy_astype(t) + [(h_index_alloc, (), 900)] + [(h_axis0, (L_, 'combinations', n_, True), 900) for L_, n_ in ((1, 2), (2, 3), (1, 3), (0, 2))] + [j for j in jobs_numpy_getitem(t) if j[1][3] == 'array']), 'C10': (lambda t: jobs_c10(t) + [j for j in jobs_record_named(t) if j[0] is h_record_field_key] + jobs_project(t) + [j for j in jobs_option_below(t) if j[1][3] in ('getitem_field', 'getitem_fields')] + jobs_record_setitem(t)), 'C05': jobs_c05, 'C09': jobs_c09}.get(prop, lambda t: [])(tier)
+        return jobs_c03(tier) + jobs_option_reduce(tier) + jobs_axis(tier, ('reduce',)) + jobs_reduce_nonlocal(tier) + jobs_unmasked_passthrough(('reduce_next',))
+    return {'C02': (lambda t: jobs_c02(t) + jobs_numpy_toregular(t)), 'C03': jobs_c03, 'C04': (lambda t: jobs_c04(t) + jobs_numpy_toregular(t)), 'C06': (lambda t: jobs_c06(t) + jobs_axis(t, ('sort', 'argsort')) + jobs_numpy_sort(t) + jobs_sort_nonlocal(t) + jobs_option_sort(t) + jobs_option_sort_above(t) + jobs_option_argsort(t) + jobs_string_argsort(t) + jobs_unmasked_passthrough(('sort_next', 'argsort_next'))), 'C08': (lambda t: jobs_c08(t) + jobs_numpy(t) + jobs_numpy_types(t) + jobs_union(t) + jobs_reverse_merge(t) + jobs_record_merge(t) + jobs_list_merge(t) + [j for j in jobs_record_named(t) if j[0] is h_record_mergemany_named] + jobs_merge_union(t) + jobs_union_ops(t)), 'C17': (lambda t: jobs_c17(t) + jobs_record_keys(t)), 'C12': (lambda t: jobs_numpy(t) + jobs_numpy_astype(t) + [(h_index_alloc, (), 900)] + [(h_axis0, (L_, 'combinations', n_, True), 900) for L_, n_ in ((1, 2), (2, 3), (1, 3), (0, 2))] + [j for j in jobs_numpy_getitem(t) if j[1][3] == 'array']), 'C10': (lambda t: jobs_c10(t) + [j for j in jobs_record_named(t) if j[0] is h_record_field_key] + jobs_project(t) + [j for j in jobs_option_below(t) if j[1][3] in ('getitem_field', 'getitem_fields')] + jobs_record_setitem(t)), 'C05': jobs_c05, 'C09': jobs_c09}.get(prop, lambda t: [])(tier)
 
 
 # ------------------------------------------------------------------------------------------------ C01: getitem_next of list nodes
@@ -6381,3 +6381,70 @@ def h_index_alloc():
         return False, 'native library %s %s' % (kind, str(got)[:100]), payload
     return mdischarge(nc.m, 'IndexOf<int64_t>::IndexOf(length)', obls, [('a length that is refused', out.raised), ('a length that is accepted', z3.Not(out.raised))], replay=replay,
                       prefer=[length == 2 ** 61 + 2], extra=dict(bounds='any 64-bit length'))
+
+
+# ------------------------------------------------------------------------------------------------ C03 / C06: UnmaskedArray passes reductions and sorts through
+@guard
+def h_unmasked_passthrough(method, n=3):
+    """UnmaskedArray::reduce_next / sort_next / argsort_next: the node adds no missing value, so its content is handed the very same request
+    (axis counter, starts, shifts, parents, group count, flags) over all n entries, and what the content answers is the answer"""
+    nc = NodeCtx(['UMA', 'RA', 'LOA', 'NA', 'IA', 'IDX', 'CNT', 'UTL', 'KD', 'IDS'], [], unwind=14)
+    seen = []
+    ANS = z3.Function('ANSWER', z3.BitVecSort(64), z3.BitVecSort(64))
+    kk = z3.BitVec('k!', 64)
+    frag = {'reduce_next': '11reduce_nextERKNS_7ReducerEl', 'sort_next': '9sort_nextElRKNS_7IndexOfIlEES4_lbb', 'argsort_next': '12argsort_nextElRKNS_7IndexOfIlEES4_S4_lbb'}[method]
+
+    def stub(eng, fr, ins, st, name, argv):
+        nm, info = nc.content_info(argv[1], st, eng)
+        seen.append(dict(pc=st.pc, info=info, args=tuple(argv[2:])))
+        nc._ret(st, argv[0], nc.fresh_content(eng, st, info['length'], z3.Lambda([kk], ANS(kk)), derived='answer'))
+        return None
+    nc.m.eng.stubs['vf$slot%d' % nc.slot(frag)] = stub
+    this, vals = build_unmasked(nc, n)
+
+    def index64(name, count):
+        d = nc.m.array(name + '_data', ('i', 64), max(1, count), const=True)
+        cells = {}
+        nc.index_cells(cells, 0, d, BV(0), BV(count))
+        return nc.m.record(name, cells, const=True)
+    starts, shifts, parents = index64('starts', 2), index64('shifts', n if method != 'sort_next' else 0), index64('parents', n)
+    negaxis, outl = nc.m.bv('negaxis'), nc.m.bv('outlength')
+    nc.m.assume(negaxis >= 1, negaxis <= 4, outl >= 0, outl <= 8)
+    f1, f2 = nc.m.bv('flag1', 1), nc.m.bv('flag2', 1)
+    nc.m.record('ret', {})
+    if method == 'reduce_next':
+        reducer = nc.m.record('reducer', {0: (NULL, 8)}, const=True)
+        args = [reducer, negaxis, starts, shifts, parents, outl, f1, f2]
+        sym = '_ZNK7awkward13UnmaskedArray11reduce_nextERKNS_7ReducerEl'
+    elif method == 'sort_next':
+        args = [negaxis, starts, parents, outl, f1, f2]
+        sym = '_ZNK7awkward13UnmaskedArray9sort_nextEl'
+    else:
+        args = [negaxis, starts, shifts, parents, outl, f1, f2]
+        sym = '_ZNK7awkward13UnmaskedArray12argsort_nextEl'
+    cands = [f for mod_ in nc.m.eng.mods for f in mod_.func_src if f.startswith(sym)]
+    out = nc.m.call(cands[0], [Ptr('ret', 0), this] + args)
+    obls = [('%s does not raise' % method, out.raised), ('the content is asked', z3.Not(z3.Or([ob['pc'] for ob in seen] + [z3.BoolVal(False)])))]
+    for ob in seen:
+        g = ob['pc']
+        obls.append(('the content handed on holds all %d entries' % n, z3.And(g, ob['info']['length'] != n)))
+        for pos, (a, w) in enumerate(zip(ob['args'], args)):
+            if isinstance(w, Ptr):
+                same = z3.Or([gg for gg, qq in nodeh.ptr_cases(a) if qq.obj == w.obj] + [z3.BoolVal(False)])
+                obls.append(('argument %d (an index / the reducer) is handed on as it came' % pos, z3.And(g, z3.Not(same))))
+            else:
+                a_ = a if a.size() == w.size() else z3.Extract(w.size() - 1, 0, a)
+                obls.append(('argument %d is handed on unchanged' % pos, z3.And(g, a_ != w)))
+    for g, res in nodeh.decode_cases(nc, out.mem, nc.m.cell('ret', 0)):
+        if res is None:
+            obls.append(('a result is returned', z3.And(g, z3.Not(out.raised))))
+            continue
+        d_ = res
+        while d_['cls'] == 'unmasked':
+            d_ = d_['content']
+        obls.append(('the answer is what the content answered', z3.And(g, z3.BoolVal(d_['cls'] != 'opaque' or d_.get('derived') != 'answer'))))
+    return mdischarge(nc.m, 'UnmaskedArray::%s passes through' % method, obls, [], replay=None, extra=dict(bounds='%d entries; every argument symbolic' % n))
+
+
+def jobs_unmasked_passthrough(methods):
+    return [(h_unmasked_passthrough, (m_,), 900) for m_ in methods]
